@@ -29,7 +29,7 @@ class C18(Check):
             "(stdout, success, and the loaded instruction streams via hook H3).  Non-trivial = the program compiles.")
     assumptions = ["map output canonicalised", "NUL outside the alphabet", "single-module programs only (as the property states)"]
     chunksize = 8
-    quick_cap_s = 50
+    quick_cap_s = 300
 
     def layers(self, tier):
         n = 3 if tier == "quick" else 4
